@@ -65,6 +65,7 @@ def run(ctx):
     rule_a(ctx, cr)
     rule_b(ctx, cr)
     rule_b2(ctx, cr)
+    rule_ifnot(ctx, cr)
     rule_c(ctx, cr)
     rule_d(ctx, cr)
     rule_f(ctx, cr)
@@ -196,6 +197,22 @@ def rule_b(ctx, cr):
     codes = {c for _b, c, _s in f.error_codes()}
     ctx.check("UndefinedLine" in codes, "C01.b", "link/undefined-line", f.span,
               "an unresolved line symbol is reported as UNDEFINED LINE")
+
+
+def rule_ifnot(ctx, cr):
+    """IF: a predicate is false exactly when it equals zero, whatever its numeric type"""
+    lp = cr.need_fn("mach::runtime::Runtime::execute_loop")
+    tests = []
+    for b, i, st in lp.assigns():
+        rv = st["rv"]
+        if rv["k"] == "binop" and rv["op"] in ("Eq", "Ne", "Lt", "Le", "Gt", "Ge") and any(
+                c[0] == "variant" and c[2] == OPC and c[3] == "IfNot" for c in lp.conds_at(b)):
+            tests.append((rv["op"], rv["lty"], lp.describe(rv["r"])))
+    want = {("Eq", "i16", "const:0"), ("Eq", "f32", "const:0.0"), ("Eq", "f64", "const:0.0")}
+    ctx.check(set(tests) == want and len(tests) == 3, "C01.d", "IfNot/zero-test-per-type", lp.span,
+              "IfNot branches when the value == 0 for Integer, Single and Double alike",
+              "the IfNot arm tests its operand with %s: for one numeric type IF takes the wrong "
+              "branch (e.g. `n != 0.0` for a Double predicate inverts every IF on a Double)" % tests)
 
 
 def rule_b2(ctx, cr):
